@@ -168,3 +168,9 @@ impl ManagerInner {
         )?)
     }
 }
+
+#[cfg(kani)]
+mod verif_kani {
+    use super::*;
+    include!(concat!(env!("LIBTW2_VERIF_HARNESS"), "/snapshot_manager.rs"));
+}
